@@ -2,7 +2,6 @@
    the specification automata. *)
 From NDN Require Import Base.Prelude Base.Sexp Base.Text Model.TlvVar Model.Name Model.Tlv Extract.TlvSexp.
 From NDN Require Import Model.NfdMgmt Model.Registerer Spec.Registration.
-From NDN Require Generated.RegProto.
 From Coq Require Extraction ExtrOcamlBasic.
 Local Open Scope N_scope.
 
@@ -153,10 +152,6 @@ Definition run (req : sexp) : sexp :=
       or_bad (odo v <- as_bool va ;; odo l <- as_list_of as_obs lg ;;
               Some (SList [s_bool (outcomes_ok v l); s_bool (never_raises l); s_bool (serial_ok l);
                            s_bool (timestamps_ok l); s_bool (percall_ok l); s_bool (autoreg_ok l)]))
-  | SList [SNum 8] =>
-      SList [s_proto Generated.RegProto.v2_register; s_proto Generated.RegProto.v2_unregister;
-             s_proto Generated.RegProto.v1_register; s_proto Generated.RegProto.v1_unregister;
-             SNum Generated.RegProto.response_type]
   | SList [SNum 9; SBytes c] => s_bool (status_200 (Some c))
   | _ => s_bad_request
   end.
